@@ -1,7 +1,7 @@
 (* Proofs/FormatFragmentProofs.v — the end-of-file theorem without a hypothesis about the parse, on the fragment of Model/Fragment.v.
 
-   fragment_eof_lines_ok: if the lexer's tokens of an input have the raw kinds `render_prog ss` of a fragment program (whatever their
-   texts and blanks), the lines the wrapper gets are exactly `expected_prog ss` (no directive: the ConditionalDirectiveConsolidator
+   fragment_eof_lines_ok: if the lexer's tokens of an input have the raw kinds `render_prog ss` of a well-formed (`wf ss`) fragment
+   program (whatever their texts and blanks; the parser re-types some of them: the tokens handed on are `map fin (render_prog ss)`), the lines the wrapper gets are exactly `expected_prog ss` (no directive: the ConditionalDirectiveConsolidator
    is the identity; first real token `begin`: DeindentPackageDirectives is the identity; no comment, no asm line: nothing is ignored,
    nothing is voided), and they satisfy FormatEofProofs.eof_lines_ok.
    format_fragment_ends_with_one_newline: hence format_model's output on such an input is the text of the other tokens followed by
@@ -30,16 +30,17 @@ Qed.
 
 Lemma pexpected_no_asm_line : forall ss par d k li, Forall (fun l => ll_type l <> LLT_AsmInstruction) (pexpected par d k li ss).
 Proof.
-  apply (stmts_mut (fun ss => forall par d k li, Forall (fun l => ll_type l <> LLT_AsmInstruction) (pexpected par d k li ss))
-                   (fun c => forall p k li semi, Forall (fun l => ll_type l <> LLT_AsmInstruction) (pexpected_body p k li semi c))
+  apply (stmts_mut (fun c => forall par d k li sm, Forall (fun l => ll_type l <> LLT_AsmInstruction) (sexpected par d k li sm c))
+                   (fun ss => forall par d k li, Forall (fun l => ll_type l <> LLT_AsmInstruction) (pexpected par d k li ss))
                    (fun a => forall par d k li pend, (forall i, Forall (fun l => ll_type l <> LLT_AsmInstruction) (pend i)) ->
                              Forall (fun l => ll_type l <> LLT_AsmInstruction) (arms_pre par d k li a pend)
-                             /\ forall i, Forall (fun l => ll_type l <> LLT_AsmInstruction) (arms_pend k li a pend i)));
-    cbn [pexpected pexpected_body arms_pre arms_pend]; cbv zeta; intros; rewrite ?arms_lines_eq.
+                             /\ forall i, Forall (fun l => ll_type l <> LLT_AsmInstruction) (arms_pend k li a pend i))
+                   (fun h => forall par d k li, Forall (fun l => ll_type l <> LLT_AsmInstruction) (hexpected par d k li h)));
+    cbn [sexpected pexpected arms_pre arms_pend hexpected]; cbv zeta; intros; rewrite ?arms_lines_eq.
   all: try match goal with IHa : forall par d k li pend, _ -> _ /\ _ |- Forall _ (_ :: arms_pre ?par ?d ?k ?li ?a ?pend ++ _) =>
              destruct (IHa par d k li pend (fun _ => Forall_nil _)) as [A1 A2] end.
   all: try match goal with IHa : forall par d k li pend, _ -> _ /\ _, Hp : forall i, Forall _ (?pend i) |- _ /\ _ =>
-             split; [apply Forall_cons; [discriminate|]; apply Forall_app; split; [apply Hp|]; apply IHa; intros; auto | apply IHa; intros; auto] end.
+             split; [apply Forall_cons; [discriminate|]; apply Forall_app; split; [apply Hp|]; apply IHa; intros | apply IHa; intros] end.
   all: try (split; [apply Forall_nil|assumption]).
   all: repeat (first [ apply Forall_nil | (apply Forall_cons; [discriminate|]) | (apply Forall_app; split) | solve [auto] ]).
 Qed.
@@ -57,12 +58,13 @@ Proof.
   induction pl as [|l r IH]; [reflexivity|]. cbn [filter]. unfold nonempty_line at 1. destruct (ll_toks l) eqn:E; cbn [map concat]; rewrite ?E, IH; reflexivity.
 Qed.
 
-Lemma expected_prog_nodup ss : NoDup (concat (map ll_toks (expected_prog ss))).
+Lemma expected_prog_nodup ss : wf ss = true -> NoDup (concat (map ll_toks (expected_prog ss))).
 Proof.
+  intros Hwf.
   unfold expected_prog. rewrite finalize_eq, map_map.
   rewrite (map_ext (fun l => ll_toks (remap (pexpected_prog ss) l)) ll_toks) by (intros l; apply remap_toks).
   rewrite concat_filter_nonempty.
-  destruct (fragment_parse_pass ss) as (_ & _ & _ & el & Hel & Hpl).
+  destruct (fragment_parse_pass ss Hwf) as (_ & _ & _ & el & Hel & Hpl).
   pose proof (parse_pass_lines_wf (seq 0 (length (render_prog ss))) [] (render_prog ss) [] (increasing_seq 0 _)) as (_ & Hnd & _).
   rewrite Hpl, map_app, concat_app in Hnd. cbn [map concat] in Hnd. rewrite Hel, !app_nil_r in Hnd. exact Hnd.
 Qed.
@@ -71,6 +73,7 @@ Qed.
 Section Frag.
 Variable ss : stmts.
 Variable segs : list seg.
+Hypothesis Hwf : wf ss = true.
 Hypothesis Hty : map seg_ty segs = render_prog ss.
 
 Lemma frag_parse : fm_parse segs = parse_file_model (render_prog ss) [].
@@ -82,17 +85,17 @@ Qed.
 Lemma frag_len : length segs = S (S (S (S (length (render ss))))).
 Proof. rewrite <- (map_length seg_ty), Hty. apply render_prog_length. Qed.
 
-Lemma frag_toks0_tys : map t_ty (fm_toks0 segs) = map tt_of_raw (render_prog ss).
+Lemma frag_toks0_tys : map t_ty (fm_toks0 segs) = map tt_of_raw (map fin (render_prog ss)).
 Proof.
-  unfold fm_toks0, tokens_of. rewrite frag_parse. destruct (fragment_parse_file ss) as (_ & _ & ->).
-  rewrite <- Hty. clear. induction segs as [|sg r IH]; [reflexivity|]. cbn [map combine fst snd]. f_equal. exact IH.
+  unfold fm_toks0, tokens_of. rewrite frag_parse. destruct (fragment_parse_file ss Hwf) as (_ & _ & ->).
+  rewrite <- Hty. clear. rewrite map_map. induction segs as [|sg r IH]; [reflexivity|]. cbn [map combine fst snd]. f_equal. exact IH.
 Qed.
 
 Lemma frag_tys_plain : Forall tt_plain (fm_tys segs).
 Proof.
   unfold fm_tys, fm_toks, Format.retype.
   assert (Hsrc : Forall tt_plain (map t_ty (fm_toks0 segs))).
-  { rewrite frag_toks0_tys. apply Forall_map. eapply Forall_impl; [|apply render_prog_plain]. apply plain_tt. }
+  { rewrite frag_toks0_tys. apply Forall_map, Forall_map. eapply Forall_impl; [|apply render_prog_plain]. intros t Ht. apply plain_tt, fin_plain, Ht. }
   pose proof (generics_chev (map t_ty (fm_toks0 segs))) as Hc. pose proof (generics_length (map t_ty (fm_toks0 segs))) as Hl.
   set (g := generics_consolidate (map t_ty (fm_toks0 segs))) in *.
   assert (Hg : Forall tt_plain g).
@@ -125,7 +128,7 @@ Qed.
 Lemma frag_lines0 : fm_lines0 segs = expected_prog ss.
 Proof.
   unfold fm_lines0, fm_lines_cd, conddir_consolidate_std. rewrite (conddir_gen_nodir_id _ _ _ frag_no_cond).
-  rewrite frag_parse. destruct (fragment_parse_file ss) as (_ & -> & _).
+  rewrite frag_parse. destruct (fragment_parse_file ss Hwf) as (_ & -> & _).
   apply (proj2 (proj2 (proj2 (proj2 (proj2 (deindent_only_levels _ _)))))).
   destruct frag_head as (r & ->). unfold first_real_ty. cbn. discriminate.
 Qed.
@@ -173,11 +176,11 @@ Theorem fragment_eof_lines_ok : eof_lines_ok segs.
 Proof.
   unfold eof_lines_ok. rewrite frag_lines, frag_len. replace (S (S (S (S (length (render ss))))) - 1) with (S (S (S (length (render ss))))) by lia.
   set (e := S (S (S (length (render ss))))).
-  destruct (fragment_single_eof_line ss) as (pre & Hl & Hpre & _ & _). destruct (fragment_parse_file ss) as (_ & Hr & _). rewrite Hr in Hl. fold e in Hl.
-  pose proof (expected_prog_nodup ss) as Hnd. rewrite Hl, map_app, concat_app in Hnd. cbn [map concat ll_toks] in Hnd. rewrite app_nil_r in Hnd.
+  destruct (fragment_single_eof_line ss Hwf) as (pre & Hl & Hpre & _ & _). destruct (fragment_parse_file ss Hwf) as (_ & Hr & _). rewrite Hr in Hl. fold e in Hl.
+  pose proof (expected_prog_nodup ss Hwf) as Hnd. rewrite Hl, map_app, concat_app in Hnd. cbn [map concat ll_toks] in Hnd. rewrite app_nil_r in Hnd.
   assert (Hnotpre : forall l, In l pre -> ~ In e (ll_toks l)).
   { intros l Hin He. apply NoDup_remove_2 in Hnd. rewrite app_nil_r in Hnd. apply Hnd. apply in_concat. exists (ll_toks l). split; [apply in_map, Hin|exact He]. }
-  pose proof (fragment_parents_ok ss) as Hpo. rewrite Hr, Hl in Hpo.
+  pose proof (fragment_parents_ok ss Hwf) as Hpo. rewrite Hr, Hl in Hpo.
   split; [|split].
   - rewrite Hl. intros k ln Hk He.
     destruct (PeanoNat.Nat.lt_ge_cases k (length pre)) as [Hlt|Hge].
@@ -197,26 +200,26 @@ End Frag.
 
 (* C14/C08 on the fragment: no hypothesis about the parse *)
 Theorem format_fragment_ends_with_one_newline alnum cfg s out segs ss :
-  format_model alnum cfg s = inl out -> lex_segments s = Some segs -> map seg_ty segs = render_prog ss ->
+  wf ss = true -> format_model alnum cfg s = inl out -> lex_segments s = Some segs -> map seg_ty segs = render_prog ss ->
   out = recon (cfg_rs cfg) false (removelast (fm_final alnum cfg segs)) ++ rs_newline (cfg_rs cfg).
-Proof. intros H Hl Hty. exact (format_ends_with_one_newline alnum cfg s out segs H Hl (fragment_eof_lines_ok ss segs Hty)). Qed.
+Proof. intros Hwf H Hl Hty. exact (format_ends_with_one_newline alnum cfg s out segs H Hl (fragment_eof_lines_ok ss segs Hwf Hty)). Qed.
 
 (* ... and on the fragment the composed model never fails: the parser model's result is known *)
 Theorem format_fragment_total alnum cfg s segs ss :
-  lex_segments s = Some segs -> map seg_ty segs = render_prog ss -> format_model alnum cfg s = inl (fm_out alnum cfg segs).
+  wf ss = true -> lex_segments s = Some segs -> map seg_ty segs = render_prog ss -> format_model alnum cfg s = inl (fm_out alnum cfg segs).
 Proof.
-  intros Hl Hty. apply (format_total_if_parsed alnum cfg s segs Hl). unfold fm_parse_ok. rewrite (frag_parse ss segs Hty).
-  exact (proj1 (fragment_parse_file ss)).
+  intros Hwf Hl Hty. apply (format_total_if_parsed alnum cfg s segs Hl). unfold fm_parse_ok. rewrite (frag_parse ss segs Hty).
+  exact (proj1 (fragment_parse_file ss Hwf)).
 Qed.
 
 (* non-vacuity: "begin if a then b:=c; x; end." lexes to a fragment program with a child line *)
 Example format_fragment_example :
   let s := [98;101;103;105;110; 32; 105;102; 32; 97; 32; 116;104;101;110; 32; 98; 58;61; 99; 59; 32; 120; 59; 32; 101;110;100; 46]%N in
   match lex_segments s with
-  | Some segs => map seg_ty segs = render_prog (SIf TAssign (SSimple SNil))
+  | Some segs => map seg_ty segs = render_prog (SCons (TIf TAssign) (SCons TSimple SNil)) /\ wf (SCons (TIf TAssign) (SCons TSimple SNil)) = true
   | None => False
   end.
-Proof. vm_compute. reflexivity. Qed.
+Proof. vm_compute. split; reflexivity. Qed.
 
 Print Assumptions fragment_eof_lines_ok.
 Print Assumptions format_fragment_ends_with_one_newline.
